@@ -59,8 +59,10 @@ EXCEPTIONS = [
      'order of warning lines about tokens missing from the lexer (eprintln / cargo:warning); no effect on generated code'),
     ('lrlex::ctbuilder::CTLexerBuilder::build', 'hash::set::HashSet<(alloc::string::String, cfgrammar::span::Span)', ['extend on alloc::vec::Vec<alloc::string::String', 'push on alloc::vec::Vec<alloc::string::String'],
      'order of warning lines about tokens missing from the parser (the Vec<String> the lines are appended to - by extend or by push - is only printed); no effect on generated code'),
-    ('lrlex::ctbuilder::CTTokenMapBuilder::new', 'hash::map::HashMap<alloc::string::String, StorageT', ['collect into an ordered Vec'],
-     'the collected Vec is a private field whose only reader, CTTokenMapBuilder::build, sorts a clone by token name before emitting'),
+    ('lrlex::ctbuilder::CTTokenMapBuilder::new', 'hash::map::HashMap<alloc::string::String, StorageT',
+     ['collect into an ordered Vec', 'push on alloc::vec::Vec<(alloc::string::String, proc_macro2::TokenStream)'],
+     'the Vec of (name, id tokens) pairs - collected, or filled by a push loop - is a private field whose only reader, CTTokenMapBuilder::build, '
+     'sorts it (a clone, or a Vec of references to its entries) by token name before emitting'),
 ]
 
 
